@@ -21,8 +21,13 @@ ASSUME OnlyPlusMixesToString ==     \* the one place where a combination other t
   \A k \in 1..NOps : \A tl, tr \in {"I", "F", "S"} :
      LET ty == Typing(OpTable[k], tl, tr) IN
      (ty[1] # 255 /\ OpTable[k].tc[ty[2]][1] # OpTable[k].tc[ty[2]][2] /\ OpTable[k].dy) <=> UndocumentedMix(OpTable[k], tl, tr)
-\* the documented alias that the table of operator.c lacks: the split rule reads "a != b" as  (a !) = b
-ASSUME NotEqualAliasMissing == IsPErr(Parse(<<"a", " ", "!", "=", " ", "b">>))
+\* the documented alias "!=": as long as OpTable (= Operators[] of operator.c) has no such row, the split rule reads
+\* "a != b" as (a !) = b, an operand-count error; with the row of proposed_fixes/C08-not-equal-alias-missing.diff
+\* appended to OpTable it is the inequality
+NotEqualRowPresent == \E k \in 1..NOps : OpTable[k].n = "!="
+ASSUME NotEqualAliasMissing ==
+  IF NotEqualRowPresent THEN Parse(<<"a", " ", "!", "=", " ", "b">>) = Bin("!=", Atom("a"), Atom("b"))
+  ELSE IsPErr(Parse(<<"a", " ", "!", "=", " ", "b">>))
 ASSUME EqualAliasPresent == Parse(<<"a", "=", "=", "b">>) = Bin("==", Atom("a"), Atom("b"))
 
 VARIABLES mode, top, t, ops
